@@ -612,6 +612,12 @@ fn seed_histories() -> Vec<(&'static str, Vec<Op>)> {
     h4.push(ann(Some("c1"), Target { kind: TKind::Directional, parts: vec![TSimple::Ann { ann: "a1".into(), off: Some(Off::whole()) }, TSimple::Ann { ann: "a0".into(), off: Some(Off::whole()) }] }, vec![]));
     h4.push(ann(Some("c2"), Target { kind: TKind::Composite, parts: vec![TSimple::Ann { ann: "a0".into(), off: None }, TSimple::Ann { ann: "a1".into(), off: None }] }, vec![]));
     v.push(("complex-selectors", h4));
+    // complex selectors whose parts point at keys and data (the CSV columns TargetKey and TargetData hold one entry per part)
+    let mut h5 = base.clone();
+    h5.push(ann(Some("a0"), Target::simple(t(0, 3)), vec![d("k0", "v", Some("D0")), d("k1", "w", Some("D1"))]));
+    h5.push(ann(Some("k0"), Target { kind: TKind::Directional, parts: vec![TSimple::Key("s0".into(), "k0".into()), TSimple::Key("s0".into(), "k1".into())] }, vec![]));
+    h5.push(ann(Some("k1"), Target { kind: TKind::Composite, parts: vec![TSimple::Data("s0".into(), DRef::Id("D0".into())), TSimple::Data("s0".into(), DRef::Id("D1".into()))] }, vec![]));
+    v.push(("complex-metadata-selectors", h5));
     v
 }
 
